@@ -99,6 +99,8 @@ type AxiomDef struct {
 	Hints   []string
 	Trigger [][]Expr
 	Manual  bool // never asserted with a quantifier: only the instances named by "use" clauses
+	Uses    []Clause // lemma proof: ground instances of earlier axioms / lemmas (or of the lemma itself, see Induct)
+	Induct  *Clause  // well-founded induction: instances of the lemma itself may be used where this measure is smaller
 }
 
 type Contracts struct {
@@ -241,7 +243,7 @@ func (cs *Contracts) LoadFile(path, pkgPath string) error {
 		lines = append(lines, rawLine{strings.TrimSpace(t[3:]), i + 1})
 	}
 	// join continuation lines: a line continues the previous one if its first word is not a keyword
-	topKeywords := map[string]bool{"func": true, "pred": true, "spec": true, "ghost": true, "axiom": true, "lemma": true, "package": true, "fntype": true, "hint": true, "trigger": true, "manual": true, "final": true}
+	topKeywords := map[string]bool{"func": true, "pred": true, "spec": true, "ghost": true, "axiom": true, "lemma": true, "package": true, "fntype": true, "hint": true, "trigger": true, "manual": true, "final": true, "use": true, "induct": true}
 	var joined []rawLine
 	for _, l := range lines {
 		if l.text == "" {
@@ -381,6 +383,24 @@ func (cs *Contracts) LoadFile(path, pkgPath string) error {
 				return fail(fmt.Errorf("manual outside axiom/lemma"))
 			}
 			curAx.Manual = true
+		case "use":
+			if curAx == nil || !curAx.Lemma {
+				return fail(fmt.Errorf("use outside lemma"))
+			}
+			c, err := mkClause(rest)
+			if err != nil {
+				return fail(err)
+			}
+			curAx.Uses = append(curAx.Uses, c)
+		case "induct":
+			if curAx == nil || !curAx.Lemma {
+				return fail(fmt.Errorf("induct outside lemma"))
+			}
+			c, err := mkClause(rest)
+			if err != nil {
+				return fail(err)
+			}
+			curAx.Induct = &c
 		case "trigger":
 			if curAx == nil {
 				return fail(fmt.Errorf("trigger outside axiom/lemma"))
